@@ -51,6 +51,30 @@ def withLines (rest : List String) (k : List Str → String) : String :=
   | some ls => k ls
   | none => "bad-op"
 
+def handleContent (s : DState) (fs : List String) : DState × String :=
+  match fs with
+  | "fc" :: allow :: rest =>
+    match decAllow allow with
+    | some a => (s, withLines rest fun ls => showLines (filterContent ls a))
+    | none => (s, "bad-op")
+  | "cl" :: allow :: rest =>
+    match decAllow allow with
+    | some a => (s, withLines rest fun ls => showLines (cleanAllow ls a))
+    | none => (s, "bad-op")
+  | "gr" :: allow :: rest =>
+    match decAllow allow with
+    | some a => (s, withLines rest fun ls => showLines (grepF (keys a) ls))
+    | none => (s, "bad-op")
+  | "ap" :: allow :: rest =>
+    match decAllow allow with
+    | some a => (s, withLines rest fun ls => showLines (applyFilters (keys a) ls))
+    | none => (s, "bad-op")
+  | "pc" :: host :: filt :: allow :: rest =>
+    match decBool host, decBool filt, decAllow allow with
+    | some h, some f, some a => (s, withLines rest fun ls => showLines (providerContent grepF h f a ls))
+    | _, _, _ => (s, "bad-op")
+  | _ => (s, "bad-op")
+
 def handle (s : DState) (fs : List String) : DState × String :=
   match fs with
   | "world" :: en :: ranks :: nodes =>
@@ -86,26 +110,23 @@ def handle (s : DState) (fs : List String) : DState × String :=
         | .noFilter => "nofilter"
         | .ok f a => s!"ok\t{if f then 1 else 0}\t{showAllow a}")
     | _, _ => (s, "bad-op")
-  | "fc" :: allow :: rest =>
-    match decAllow allow with
-    | some a => (s, withLines rest fun ls => showLines (filterContent ls a))
+  | "load" :: comp :: rest =>
+    match decNat comp with
+    | some c =>
+      match listOpt (rest.map decStr) with
+      | some ls => let (st', out) := loadArchive s.w s.st c ls; (⟨s.w, st'⟩, showLines out)
+      | none => (s, "bad-op")
     | none => (s, "bad-op")
-  | "cl" :: allow :: rest =>
-    match decAllow allow with
-    | some a => (s, withLines rest fun ls => showLines (cleanAllow ls a))
-    | none => (s, "bad-op")
-  | "gr" :: allow :: rest =>
-    match decAllow allow with
-    | some a => (s, withLines rest fun ls => showLines (grepF (keys a) ls))
-    | none => (s, "bad-op")
-  | "ap" :: allow :: rest =>
-    match decAllow allow with
-    | some a => (s, withLines rest fun ls => showLines (applyFilters (keys a) ls))
-    | none => (s, "bad-op")
-  | "pc" :: host :: filt :: allow :: rest =>
-    match decBool host, decBool filt, decAllow allow with
-    | some h, some f, some a => (s, withLines rest fun ls => showLines (providerContent grepF h f a ls))
-    | _, _, _ => (s, "bad-op")
+  | op :: comp :: rest =>
+    if op = "clean" ∨ op = "apply" ∨ op = "fcd" then
+      match decNat comp, listOpt (rest.map decStr) with
+      | some c, some ls =>
+        let (st', fs, _) := getFilters s.w s.st c
+        (⟨s.w, st'⟩, showLines (if op = "clean" then cleanAllow ls fs
+                                else if op = "apply" then applyFilters (keys fs) ls
+                                else filterContent ls fs))
+      | _, _ => (s, "bad-op")
+    else handleContent s (op :: comp :: rest)
   | _ => (s, "bad-op")
 
 def main : IO Unit := serveState (⟨⟨[], true⟩, State.init⟩ : DState) handle
